@@ -447,3 +447,22 @@ Definition with_workers (p : pcfg) (w : nat -> ppc) : pcfg :=
   mkP (p_in p) (p_buf p) (p_cancel p) (p_d p) w (p_received p) (p_enqueued p) (p_dropped p) (p_after p).
 (* number of steps of the pipeline's own threads in an action list *)
 Definition pipeline_steps (l : list pact) : nat := length (filter is_pipeline l).
+
+(* ---- statements about traces (part A) ---- *)
+
+(* between two announcements of a key lies its removal *)
+Definition once_per_lifetime (tr : list event) : Prop :=
+  forall k tr1 tr2 tr3 o1 r1 o2 r2,
+    tr = tr1 ++ EAnn k o1 r1 :: tr2 ++ EAnn k o2 r2 :: tr3 -> In (ERemove k) tr2.
+
+(* every sighting by a handler has an announcement of that key before it with no removal in between *)
+Definition seen_after_announce (tr : list event) : Prop :=
+  forall k o r tr1 tr2, tr = tr1 ++ ESeen k o r :: tr2 ->
+    exists tr3 o' r' tr4, tr2 = tr3 ++ EAnn k o' r' :: tr4 /\ ~ In (ERemove k) tr3.
+
+Definition one_sweeper (f : nat -> thread) : Prop :=
+  forall i j, is_sweeper (f i) = true -> is_sweeper (f j) = true -> i = j.
+
+(* a sweeper that has not collected anything yet (every thread starts like that) *)
+Definition sweeper_idle (th : thread) : bool :=
+  match th with TSweeper (S1 _ _) | TSweeper (S2 _ _) => false | _ => true end.
